@@ -116,16 +116,20 @@ func (c *container) Execve(ctx context.Context, param ExecveParam) runner.Result
 
 func (c *container) waitForDone(ctx context.Context, sTime time.Time) runner.Result {
 	mTime := time.Now()
+	verifPoint("host.waitForDone")
 	select {
 	case <-c.done: // socket error
+		verifEvent("host", "branch", "b", "done")
 		return convertReplyResult(reply{}, sTime, mTime, c.err)
 
 	case <-ctx.Done(): // cancel
+		verifEvent("host", "branch", "b", "ctx")
 		c.sendCmd(cmd{Cmd: cmdKill}, unixsocket.Msg{}) // kill
 		reply, _, err := c.recvReply()
 		return convertReplyResult(reply, sTime, mTime, err)
 
 	case ret := <-c.recvCh: // result
+		verifEvent("host", "branch", "b", "result")
 		err := c.sendCmd(cmd{Cmd: cmdKill}, unixsocket.Msg{}) // kill
 		return convertReplyResult(ret.Reply, sTime, mTime, err)
 	}
